@@ -16,6 +16,10 @@ MOD = "github.com/enbility/ship-go"
 ENGINE = os.path.join(VERIF, "bin", "verif-engine")
 GOENV = dict(os.environ, GOFLAGS="-mod=mod", GOPROXY="off", GOSUMDB="off", GOTOOLCHAIN="local")
 
+# per-run wall-clock budget of the engine by tier (seconds)
+ENGINE_DEADLINE_S = {"quick": 1500, "thorough": 4 * 3600}
+CURRENT_TIER = ["quick"]
+
 SHIP_CUTS = {
     MOD + "/ship.JsonFromEEBUSJson": "uf",
     MOD + "/ship.JsonIntoEEBUSJson": "ufok",
@@ -36,6 +40,16 @@ def ensure_engine():
             raise SystemExit(2)
 
 
+def _limit_memory():
+    """The engine (and the solvers it starts) may not take the machine down: address space capped at 40 GiB."""
+    import resource
+    lim = 40 * 1024 ** 3
+    try:
+        resource.setrlimit(resource.RLIMIT_AS, (lim, lim))
+    except (ValueError, OSError):
+        pass
+
+
 def scratch_dir():
     base = os.environ.get("TMPDIR") or "/var/tmp"
     return tempfile.mkdtemp(prefix="verif-", dir=base)
@@ -50,8 +64,12 @@ def run_engine(pkg, entries, sched="manual", cuts=None, workers=14, solver="z3",
     cmd = [ENGINE, "-repo", REPO, "-harness", os.path.join(VERIF, "harness"), "-pkg", pkg, "-sched", sched,
            "-workers", str(workers), "-solver", solver, "-depth", str(depth), "-loop", str(loop),
            "-paths", str(paths), "-timeout", str(timeout_ms), "-preempt", str(preempt), "-out", out]
-    if deadline:
-        cmd += ["-deadline", str(deadline)]
+    # wall-clock budget of one engine run: the engine stops handing out work at the deadline (reported as incomplete, never
+    # as a pass at the full bound); a run that is still alive some minutes later is killed (the check then reports that
+    # the tree could not be analysed - it never hangs)
+    if not deadline:
+        deadline = ENGINE_DEADLINE_S.get(CURRENT_TIER[0], 1500)
+    cmd += ["-deadline", str(deadline)]
     if strbytes:
         cmd += ["-strbytes"]
     if maxstr:
@@ -62,11 +80,16 @@ def run_engine(pkg, entries, sched="manual", cuts=None, workers=14, solver="z3",
         cmd += ["-cut", "%s=%s" % (k, v)]
     cmd += extra or []
     t0 = time.time()
-    r = subprocess.run(cmd, env=GOENV, capture_output=True, text=True)
+    try:
+        r = subprocess.run(cmd, env=GOENV, capture_output=True, text=True, timeout=deadline + 600, preexec_fn=_limit_memory)
+    except subprocess.TimeoutExpired:
+        shutil.rmtree(tmp, ignore_errors=True)
+        return None, {"error": "engine run killed after %d s (deadline %d s + 600 s grace): %s" % (deadline + 600, deadline, " ".join(cmd)[:600]),
+                      "cmd": " ".join(cmd), "wall_s": time.time() - t0}
     wall = time.time() - t0
     try:
         if r.returncode != 0 or not os.path.exists(out):
-            return None, {"error": (r.stderr or r.stdout)[-4000:], "cmd": " ".join(cmd), "wall_s": wall}
+            return None, {"error": (r.stderr or r.stdout)[-4000:] or "engine exited with status %s and no output (killed: out of memory?)" % r.returncode, "cmd": " ".join(cmd), "wall_s": wall}
         with open(out) as f:
             d = json.load(f)
     finally:
@@ -392,6 +415,7 @@ class Check:
     def __init__(self, prop, tier, level="model_checking"):
         self.prop = prop
         self.tier = tier
+        CURRENT_TIER[0] = tier
         self.level = level
         self.t0 = time.time()
         self.runs = []
